@@ -207,7 +207,7 @@ macro_rules! harnesses {
     };
 }
 
-/// `@quick` harnesses are always compiled; the others only with the cargo feature `thorough`
+/// `@quick` harnesses are always compiled; the others (plain and `@stretch`) only with the cargo feature `thorough`
 /// (Kani's compile time grows with the number of harnesses in the crate: ~3.5 s each).
 /// `[n]` is the loop-unwinding bound of the harness (unwinding assertions are on).
 #[macro_export]
@@ -224,6 +224,10 @@ macro_rules! one_harness {
             let mut s = $crate::common::KaniSrc;
             $f(&mut s $(, $arg)*);
         }
+    };
+    (@stretch $name:ident [ $u:literal ] => $f:ident ( $($arg:expr),* )) => {
+        // thorough tier; known to exceed the per-harness cap on the reference machine: a time-out is recorded as undecided
+        $crate::one_harness!($name [$u] => $f($($arg),*));
     };
     ($name:ident [ $u:literal ] => $f:ident ( $($arg:expr),* )) => {
         #[cfg(all(kani, feature = "thorough"))]
